@@ -211,6 +211,16 @@ class Normaliser:
                 # a closure built in this body and invoked here
                 fn = strip_generics(c.get('fn', ''))
                 if fn in ('std::ops::Fn::call', 'std::ops::FnMut::call_mut', 'std::ops::FnOnce::call_once') and t.get('args'):
+                    fi = self._fn_item_of(bj, t['args'][0])
+                    if fi is not None and len(t['args']) > 1 and 'k' not in t['args'][1]:
+                        # `f(x)` where f is a function item handed down (e.g. `for_each(StatementCache::clear)`): a direct call
+                        tup = t['args'][1].get('m') or t['args'][1].get('c')
+                        n_args = self._tuple_arity(bj, tup)
+                        if n_args is not None:
+                            t['f'] = copy.deepcopy(fi)
+                            t['args'] = [{'m': {'l': tup['l'], 'pr': list(tup.get('pr', [])) + ['.%d' % i], 'own': list(tup.get('own', [])) + [None], 'ty': ''}} for i in range(n_args)]
+                            inlined.append('fn-item-call:' + fi['k'].get('fn', '?')); changed = True
+                            continue
                     cl = self._closure_of(bj, t['args'][0])
                     if cl is not None and cl in self.prog.bodies and not self.prog.bodies[cl].is_coroutine and inlined.count(cl) < 3 \
                             and self._crate_of(cl) in self.crates:
@@ -290,6 +300,34 @@ class Normaliser:
         bj['blocks'].append({'cleanup': False, 'stmts': [], 'term': {'k': 'unreachable', 'line': line}})
         return True
 
+    def _tuple_arity(self, bj, place):
+        if place is None or place.get('pr'):
+            return None
+        for blk in bj['blocks']:
+            for s in blk['stmts']:
+                if s['k'] == 'assign' and s['p']['l'] == place['l'] and not s['p']['pr'] and s['rv']['k'] == 'agg' and s['rv'].get('ak') == 'tuple':
+                    return len(s['rv']['ops'])
+        return None
+
+    def _fn_item_of(self, bj, operand, depth=0):
+        """the function-item constant the operand refers to (directly, through refs / moves of a zero-sized fn-def value)"""
+        if depth > 6:
+            return None
+        if 'k' in operand:
+            return operand if operand['k'].get('fn') and operand['k'].get('rk', 'item') in ('item', None) and (operand['k'].get('rfn') or operand['k'].get('fn')) else None
+        p = operand.get('c') or operand.get('m')
+        if p is None or [e for e in p.get('pr', []) if e != '*']:
+            return None
+        defs = [s for blk in bj['blocks'] for s in blk['stmts'] if s['k'] == 'assign' and s['p']['l'] == p['l'] and not s['p']['pr']]
+        if len(defs) != 1:
+            return None
+        rv = defs[0]['rv']
+        if rv['k'] in ('ref', 'copyderef') and not [e for e in rv['p'].get('pr', []) if e != '*']:
+            return self._fn_item_of(bj, {'c': rv['p']}, depth + 1)
+        if rv['k'] == 'use':
+            return self._fn_item_of(bj, rv['op'], depth + 1)
+        return None
+
     def _closure_of(self, bj, operand, depth=0):
         """path of the closure whose aggregate (in this body) the operand refers to (through refs / moves)"""
         if depth > 6 or 'k' in operand:
@@ -350,6 +388,10 @@ class Normaliser:
             bj['blocks'].append(_remap_block(cb, lo, bo, dest, ret_target, unwind_target))
 
 
+# enums whose freshly built values are threaded to the switch that inspects them (`let r = {.. None / Some(x) ..}; match r`)
+THREAD_ENUMS = ('std::option::Option', 'std::result::Result', 'std::ops::ControlFlow')
+
+
 def _succ_normal(t):
     """the single normal successor of a goto / drop terminator, else None"""
     if t['k'] == 'goto':
@@ -397,6 +439,8 @@ def thread_jumps(bj, max_clones=60):
                 rv = s['rv']
                 if rv['k'] == 'use' and 'k' in rv['op'] and rv['op']['k'].get('v') in ('true', 'false') and rv['op']['k'].get('ty') == 'bool':
                     flags[l] = rv['op']['k']['v']
+                elif rv['k'] == 'agg' and rv.get('ak') == 'adt' and rv.get('variant') and rv.get('adt') in THREAD_ENUMS:
+                    flags[l] = '@' + rv['variant']          # a value of known variant: `switch discriminant(l)` is decided
                 elif rv['k'] == 'use' and _bare_local(rv['op']) in flags:
                     flags[l] = flags[_bare_local(rv['op'])]
                 else:
@@ -424,11 +468,20 @@ def thread_jumps(bj, max_clones=60):
                         fl[l] = fl[_bare_local(rv['op'])]
                     elif rv['k'] == 'use' and 'k' in rv['op'] and rv['op']['k'].get('v') in ('true', 'false') and rv['op']['k'].get('ty') == 'bool' and l not in addr:
                         fl[l] = rv['op']['k']['v']
+                    elif rv['k'] == 'discr' and not rv['p'].get('pr') and str(fl.get(rv['p']['l'], '')).startswith('@'):
+                        fl[l] = 'discr' + fl[rv['p']['l']]       # `_d = discriminant(_x)` with _x of known variant
                     else:
                         fl.pop(l, None)
                 chain.append(cur)
                 tt = B['term']
-                if tt['k'] == 'switch' and tt.get('dty') == 'bool' and _bare_local(tt['d']) in fl:
+                if tt['k'] == 'switch' and tt.get('variants') and _bare_local(tt['d']) in fl and str(fl[_bare_local(tt['d'])]).startswith('discr@'):
+                    want = fl[_bare_local(tt['d'])][6:]
+                    idx = [k_ for k_, v_ in tt['variants'].items() if v_ == want]
+                    if idx:
+                        arms = {a: b for a, b in tt['arms']}
+                        target = arms.get(idx[0], tt['otherwise'])
+                    break
+                if tt['k'] == 'switch' and tt.get('dty') == 'bool' and _bare_local(tt['d']) in fl and fl[_bare_local(tt['d'])] in ('true', 'false'):
                     v = fl[_bare_local(tt['d'])]
                     arms = {a: b for a, b in tt['arms']}
                     # bool switches are emitted as `[0 -> false-arm], otherwise -> true-arm`
